@@ -31,7 +31,7 @@ from crosshair.statespace import (
     context_statespace,
 )
 from crosshair.tracers import COMPOSITE_TRACER
-from crosshair.util import IgnoreAttempt, UnexploredPath
+from crosshair.util import CrossHairInternal, IgnoreAttempt, UnexploredPath
 
 from . import chx
 
@@ -83,6 +83,10 @@ class _Inputs:
     def check(self, cond, msg):
         if not cond:
             raise Violation(msg)
+
+    def untraced(self, fn):
+        """Run a purely concrete computation (no symbolic value involved) outside the tracer."""
+        return fn()
 
     def exclude(self, region, cond):
         """If `region` is a listed known finding: assume the inputs are outside it."""
@@ -162,6 +166,10 @@ class Sym(_Inputs):
     def assume(self, cond):
         if not cond:
             raise IgnoreAttempt("assume")
+
+    def untraced(self, fn):
+        with NoTracing():
+            return fn()
 
     def realized(self):
         """Concrete values of every input under one model of the current path."""
@@ -295,7 +303,7 @@ def explore(harness, known=(), budget_s=600.0, per_path_s=60.0, max_paths=10**9,
                     st["error"] = "ModelGap: " + str(e)
                     status = VerificationStatus.UNKNOWN
                     stop = True
-                except Exception as e:  # harness or stub failure, not a verdict
+                except (Exception, CrossHairInternal) as e:  # harness or stub failure, not a verdict
                     tb = "".join(traceback.format_exception(e)[-8:])
                     try:
                         with ResumedTracing():
